@@ -97,6 +97,21 @@ fn ob_apply(b: &mut OrderBook, k: usize, c: &ObCall) -> (Value, Option<&'static 
     }
 }
 
+/// sweep both sides of a scratch copy: exposes the hidden queue order (same probe as in E1)
+fn ob_drain(b: &mut OrderBook) -> Value {
+    b.enable_trading();
+    let n0 = b.get_trades().len();
+    let t = b.get_time() + 1;
+    b.set_time(t);
+    let v = b.ask_vol() + 1;
+    let _ = b.create_and_place_order(side_of(true), v, 9, None);
+    b.set_time(t + 1);
+    let v = b.bid_vol() + 1;
+    let _ = b.create_and_place_order(side_of(false), v, 9, None);
+    let tr: Vec<TradeRec> = b.get_trades()[n0..].iter().map(TradeRec::of).collect();
+    trades_json(&tr)
+}
+
 fn ob_alphabet(n_orders: usize, with_overflow: bool) -> Vec<ObCall> {
     let mut v = Vec::new();
     for bid in [true, false] {
@@ -113,6 +128,7 @@ fn ob_alphabet(n_orders: usize, with_overflow: bool) -> Vec<ObCall> {
         v.push(ObCall::Modify { id, price: Some(3 * TICK), vol: None });
         v.push(ObCall::Modify { id, price: None, vol: Some(1) });
         v.push(ObCall::Modify { id, price: Some(2 * TICK), vol: Some(3) });
+        v.push(ObCall::Modify { id, price: None, vol: None });
     }
     v.push(ObCall::Disable);
     v.push(ObCall::Enable);
@@ -173,7 +189,8 @@ fn ob_rec(w: &mut Writer, dir: &str, hist: &mut Vec<ObCall>, depth_left: usize, 
                 ob_call_json(c, 100 + nb)
             })
             .collect();
-        let mut line = json!({"id": id, "kind": "ob", "tick": TICK, "calls": calls_json, "exp": {"ret": ret, "exc": exc, "state": ob_state(&b)}});
+        let state = ob_state(&b);
+        let mut line = json!({"id": id, "kind": "ob", "tick": TICK, "calls": calls_json, "exp": {"ret": ret, "exc": exc, "state": state}});
         if hist.len() <= snap_depth && exc.is_none() {
             // snapshot exchange in both directions
             let rs = format!("{}/rust_snap_{}.json", dir, id);
@@ -182,6 +199,7 @@ fn ob_rec(w: &mut Writer, dir: &str, hist: &mut Vec<ObCall>, depth_left: usize, 
             line["snap_out"] = json!(format!("{}/py_snap_{}.json", dir, id));
             rust_snaps.push((id, hist.clone()));
         }
+        line["exp"]["drain"] = ob_drain(&mut b);
         writeln!(w.f, "{}", line).unwrap();
         if exc.is_none() {
             ob_rec(w, dir, hist, depth_left - 1, snap_depth, rust_snaps);
@@ -309,21 +327,37 @@ fn env_state(w: &EnvW) -> Value {
     })
 }
 
-fn env_alphabet(n_orders: usize, with_overflow: bool, rich: bool) -> Vec<EnvCall> {
+/// two sweeping market orders, one step each (consumes the environment)
+fn env_drain(w: &mut EnvW) -> Value {
+    w.env.enable_trading();
+    let n0 = w.env.get_trades().len();
+    let v = w.env.get_orderbook().ask_vol() + 1;
+    let _ = w.env.place_order(side_of(true), v, 9, None);
+    w.env.step(&mut w.rng);
+    let v = w.env.get_orderbook().bid_vol() + 1;
+    let _ = w.env.place_order(side_of(false), v, 9, None);
+    w.env.step(&mut w.rng);
+    let tr: Vec<TradeRec> = w.env.get_trades()[n0..].iter().map(TradeRec::of).collect();
+    trades_json(&tr)
+}
+
+fn env_alphabet(n_orders: usize, with_overflow: bool, rich: bool, lo: u32) -> Vec<EnvCall> {
+    // `lo` = lower of the two main prices in ticks (2 for the empty start, deeper for the deep-book base)
     let mut v = Vec::new();
     for bid in [true, false] {
-        for price in [2 * TICK, 3 * TICK] {
+        for price in [lo * TICK, (lo + 1) * TICK] {
             v.push(EnvCall::Place { bid, vol: if bid { 2 } else { 3 }, price: Some(price) });
         }
         if rich {
-            v.push(EnvCall::Place { bid, vol: 1, price: Some(if bid { TICK } else { 4 * TICK }) });
+            v.push(EnvCall::Place { bid, vol: 1, price: Some(if bid { (lo - 1) * TICK } else { (lo + 2) * TICK }) });
         }
         v.push(EnvCall::Place { bid, vol: 4, price: None });
     }
-    v.push(EnvCall::Place { bid: true, vol: 1, price: Some(2 * TICK + 1) });
+    v.push(EnvCall::Place { bid: true, vol: 1, price: Some(lo * TICK + 1) });
     for id in 0..n_orders {
         v.push(EnvCall::Cancel { id });
-        v.push(EnvCall::Modify { id, price: Some(3 * TICK), vol: None });
+        v.push(EnvCall::Modify { id, price: Some((lo + 1) * TICK), vol: None });
+        v.push(EnvCall::Modify { id, price: None, vol: None });
         if rich {
             v.push(EnvCall::Modify { id, price: None, vol: Some(1) });
         }
@@ -352,12 +386,12 @@ fn env_build(seed: u64, calls: &[EnvCall]) -> EnvW {
     w
 }
 
-fn env_rec(w: &mut Writer, seed: u64, hist: &mut Vec<EnvCall>, depth_left: usize, rich: bool, overflow: bool) {
+fn env_rec(w: &mut Writer, seed: u64, hist: &mut Vec<EnvCall>, depth_left: usize, rich: bool, overflow: bool, lo: u32, max_ids: usize) {
     if depth_left == 0 {
         return;
     }
     let n_orders = env_build(seed, hist).env.get_orders().len();
-    for c in env_alphabet(n_orders, overflow, rich) {
+    for c in env_alphabet(n_orders.min(max_ids), overflow, rich, lo) {
         let mut e = env_build(seed, hist);
         let (ret, exc) = env_apply(&mut e, &c);
         hist.push(c.clone());
@@ -374,10 +408,12 @@ fn env_rec(w: &mut Writer, seed: u64, hist: &mut Vec<EnvCall>, depth_left: usize
                 nb = e2.env.get_orders().len() as u32;
             }
         }
-        let line = json!({"id": id, "kind": "env", "seed": seed, "tick": TICK, "step_size": 100, "calls": calls_json, "exp": {"ret": ret, "exc": exc, "state": env_state(&e)}});
+        let st = env_state(&e);
+        let drain = env_drain(&mut e);
+        let line = json!({"id": id, "kind": "env", "seed": seed, "tick": TICK, "step_size": 100, "calls": calls_json, "exp": {"ret": ret, "exc": exc, "state": st, "drain": drain}});
         writeln!(w.f, "{}", line).unwrap();
         if exc.is_none() {
-            env_rec(w, seed, hist, depth_left - 1, rich, overflow);
+            env_rec(w, seed, hist, depth_left - 1, rich, overflow, lo, max_ids);
         }
         hist.pop();
     }
@@ -459,7 +495,7 @@ pub fn c18(tier: &str) -> i32 {
     ob_rec(&mut w, &dir, &mut Vec::new(), if t { 4 } else { 3 }, if t { 3 } else { 2 }, &mut rust_snaps);
     let n_ob = w.n;
     for seed in [0u64, 1, 101] {
-        env_rec(&mut w, seed, &mut Vec::new(), if t { 5 } else { 4 }, seed == 0, seed != 1);
+        env_rec(&mut w, seed, &mut Vec::new(), if t { 5 } else { 4 }, seed == 0, seed != 1, 2, usize::MAX);
     }
     w.f.flush().unwrap();
     let n_total = w.n;
@@ -514,8 +550,22 @@ pub fn c19(tier: &str) -> i32 {
     let dir = work_dir("c19");
     let mut w = Writer { f: std::io::BufWriter::new(std::fs::File::create(format!("{}/traces.jsonl", dir)).unwrap()), n: 0, calls: 0 };
     for seed in [0u64, 7] {
-        env_rec(&mut w, seed, &mut Vec::new(), if t { 5 } else { 4 }, true, false);
+        env_rec(&mut w, seed, &mut Vec::new(), if t { 5 } else { 4 }, true, false, 2, usize::MAX);
     }
+    // a deep, asymmetric book that populates all ten published levels on both sides
+    let mut deep: Vec<EnvCall> = Vec::new();
+    for i in 0..10u32 {
+        for k in 0..(i % 3 + 1) {
+            deep.push(EnvCall::Place { bid: true, vol: i + 1 + k, price: Some((30 - i) * TICK) });
+        }
+        for k in 0..((i + 1) % 3 + 1) {
+            deep.push(EnvCall::Place { bid: false, vol: 2 * i + 3 + k, price: Some((33 + i) * TICK) });
+        }
+    }
+    deep.push(EnvCall::Step);
+    let n_deep = deep.len();
+    env_rec(&mut w, 3, &mut deep, if t { 4 } else { 3 }, false, false, 31, 3);
+    let _ = n_deep;
     w.f.flush().unwrap();
     out.set("states", json!(w.n));
     drop(w);
